@@ -15,6 +15,7 @@ SeqSort = z3.DeclareSort('SeqId')
 
 
 class Sym:
+    concrete = False
     def __init__(self):
         self.facts = []            # valid side facts about applications of interpreted-by-axiom symbols (round, trunc, pi)
         self._factkeys = set()
@@ -64,7 +65,7 @@ class Sym:
         sig = ';'.join(sigs)
         cnt = [0]
         def mk(sh):
-            cnt[0] += 1
+            if sh in ('int', 'real', 'bool', 'str') or (isinstance(sh, tuple) and sh[0] == 'opt'): cnt[0] += 1   # leaves only
             nm = f'{fname}[{sig}]#{cnt[0]}'
             if sh == 'int': return VInt(self.app(nm, ts, I))
             if sh == 'real': return VReal(self.app(nm, ts, R))
@@ -108,6 +109,12 @@ class Sym:
     def le(self, a, b): return self.r(a) <= self.r(b)
     def lt(self, a, b): return self.r(a) < self.r(b)
     def eq(self, a, b): return self.r(a) == self.r(b)
+    def eqi(self, a, n): return self.i(a) == n if isinstance(a, (VInt, VBool)) else self.false
+    def num_value(self, t): return VReal(t)
+    def const(self, x): return z3.RealVal(repr(x))
+    def is_tuple(self, v): return isinstance(v, VTuple)
+    def payload(self, v): return v.sym[1]
+    def lit(self, s): return VStr(lit=s)
 
     # ---------------------------------------------------------------- colours
     def is_none(self, v):
